@@ -308,4 +308,26 @@ def t_murmur(ctx):
                      'ops': [['insert', '00' * 5], ['contains', '01'], ['roundtrip'], ['insert', 'ab' * 33], ['contains_inserted', 0], ['contains', 'ab' * 33]]})
 
 
-TASKS = [('stateful', (t_stateful, 10)), ('random', (t_random, 4)), ('murmur', (t_murmur, 2))]
+def t_soak(ctx):
+    """one long history per filter size class: thousands of insertions (byte strings of every length 0..40 and outpoints, each
+    element also a second time) interleaved with queries and wire round trips - no false negative at any point, bits == BIP37"""
+    n = ctx.n(1500, 12000)
+    for (nel, rate, tweak) in ctx.my([(n, 0.001, 0xFBA4C795), (20000, 1e-9, 0xffffffff), (3, 0.5, 0), (n * 4, 1e-4, 2 ** 31)]):
+        ops = []
+        for i in range(n):
+            e = (bytes([i % 256, i // 256 % 256, i // 65536]) * 14)[:i % 41]
+            ops.append(['insert', e.hex()])
+            if i % 7 == 0:
+                ops.append(['insert_outpoint', bytes([i % 251]).hex() * 32, i % 5])
+            if i % 11 == 0:
+                ops.append(['insert', e.hex()])                      # the same element again
+            if i % 13 == 0:
+                ops.append(['contains_inserted', i * 7])
+            if i % 500 == 499:
+                ops.append(['roundtrip'])
+        ctx.run({'kind': 'hist', 'n': nel, 'rate': rate, 'tweak': tweak, 'flags': 1, 'ops': ops})
+    if ctx.shard == 0:
+        ctx.exhaustive.append('four filters (incl. one at the 36,000-byte cap and one of a few bytes) x %d insertions with repeats, queries and round trips' % n)
+
+
+TASKS = [('stateful', (t_stateful, 10)), ('random', (t_random, 4)), ('murmur', (t_murmur, 2)), ('soak', (t_soak, 4))]
